@@ -7,6 +7,8 @@ package main
 import (
 	"fmt"
 	"math"
+	"math/bits"
+	"strings"
 
 	"github.com/tuneinsight/lattigo/v6/circuits/ckks/mod1"
 	"github.com/tuneinsight/lattigo/v6/circuits/ckks/polynomial"
@@ -46,8 +48,19 @@ func c18Mod1Step(c *Ctx) {
 				LogMessageRatio: 8, K: 12, Mod1Degree: 63, DoubleAngle: da, Mod1InvDegree: inv, LogScale: 60}})
 		}
 	}
+	// cosine with discrete nodes: the node allocation hands nodes out in pairs; degrees around the powers of two
+	// (one node of budget left), several K: the polynomial degree must not exceed what Depth() accounts for
+	for _, k := range []int{12, 16, 9} {
+		for _, deg := range []int{15, 30, 31, 32, 62, 63, 64} {
+			if k != 16 && !c.Thorough() && deg != 31 && deg != 63 {
+				continue
+			}
+			lits = append(lits, lit{fmt.Sprintf("cosd_k%d_deg%d", k, deg), mod1.ParametersLiteral{LevelQ: 12, Mod1Type: mod1.CosDiscrete,
+				LogMessageRatio: 8, K: k, Mod1Degree: deg, DoubleAngle: 3, LogScale: 60}})
+		}
+	}
 	// sine: DoubleAngle in the literal is documented as ignored ("only applies for cos and is ignored if sin is used") and
-	// is not counted by Depth(): the reference below does not depend on it, and the levels consumed must equal Depth()
+	// is not counted by Depth(): the reference below does not depend on it, and the levels consumed must not exceed Depth()
 	for _, inv := range []int{0, 7} {
 		for _, da := range []int{0, 2, 3} {
 			if da == 3 && !c.Thorough() {
@@ -64,7 +77,7 @@ func c18Mod1Step(c *Ctx) {
 	}
 	for _, lt := range lits {
 		l := lt.l
-		if l.Mod1Type == mod1.CosDiscrete {
+		if l.Mod1Type == mod1.CosDiscrete && !strings.HasPrefix(lt.name, "cosd_k") {
 			// degree large enough for the interval left after the double angles
 			l.Mod1Degree = map[int]int{0: 127, 1: 63, 2: 63, 3: 30}[l.DoubleAngle]
 		}
@@ -80,6 +93,21 @@ func c18Mod1Step(c *Ctx) {
 		if err != nil {
 			c.Count("mod1:rejected")
 			continue
+		}
+		// the polynomial fits the depth the literal announces: degree < 2^(bits of max(Mod1Degree, 2K-1)), and for the
+		// discrete cosine degree <= max(Mod1Degree, 2K-1)
+		{
+			detail := ""
+			bound := l.Mod1Degree
+			if l.Mod1Type == mod1.CosDiscrete && 2*l.K-1 > bound {
+				bound = 2*l.K - 1
+			}
+			if d := evm.Mod1Poly.Degree(); d > bound {
+				detail = fmt.Sprintf("polynomial of degree %d for Mod1Degree=%d, K=%d", d, l.Mod1Degree, l.K)
+			} else if pd := evm.Mod1Poly.Depth() + l.DoubleAngle*b2i(l.Mod1Type != mod1.SinContinuous) + bits.Len64(uint64(l.Mod1InvDegree)); pd > depth {
+				detail = fmt.Sprintf("the evaluation needs %d levels, Depth() announces %d", pd, depth)
+			}
+			c.Probe("mod1_poly_degree", "lit="+lt.name, "C18-mod1-degree", detail)
 		}
 		K := evm.K - 1
 		Q := evm.QDiff * evm.MessageRatio()
@@ -140,9 +168,12 @@ func c18Mod1Step(c *Ctx) {
 					return
 				}
 				// levels: the input sits at LevelQ, the step consumes exactly ParametersLiteral.Depth() levels
-				if want := l.LevelQ - depth; out.Level() != want {
+				// (a polynomial of lower degree than requested may leave a level unused: counted, not a failure)
+				if want := l.LevelQ - depth; out.Level() < want {
 					detail = fmt.Sprintf("output at level %d, announced LevelQ - Depth() = %d - %d = %d", out.Level(), l.LevelQ, depth, want)
 					return
+				} else if out.Level() > want {
+					c.Count("mod1:level-unused")
 				}
 				pt := dec.DecryptNew(out)
 				have := make([]float64, len(values))
